@@ -316,6 +316,28 @@ def step? (s : SSt) (l : Lab) : Option SSt :=
   | .tdRun _ => none
   | .instantOver => if s.result.isSome then log { s with grace := false } else none
 
+/-- `d` is a proper descendant of `a` in the component tree. -/
+inductive Desc (prog : List CompSpec) : Nat → Nat → Prop
+  | child (a d : Nat) (c : CompSpec) : prog[a]? = some c → d ∈ c.children → Desc prog d a
+  | trans (a m d : Nat) : Desc prog m a → Desc prog d m → Desc prog d a
+
+/-- Well-formed flattened tree: component 0 is the root, every other component's parent has a
+smaller index and lists it among its children, children lists are duplicate-free and point to
+later components whose parent is this one. -/
+def wfProg (prog : List CompSpec) : Bool :=
+  decide (0 < prog.length) &&
+  (List.range prog.length).all fun i =>
+    match prog[i]? with
+    | none => false
+    | some c =>
+      (if i = 0 then c.parent.isNone
+       else match c.parent with
+         | some p => decide (p < i) && ((prog[p]?.map fun pc => pc.children.contains i).getD false)
+         | none => false) &&
+      c.children.all (fun ch => decide (i < ch) && decide (ch < prog.length) &&
+        ((prog[ch]?.map fun cc => cc.parent == some i).getD false)) &&
+      decide (c.children.eraseDups.length = c.children.length)
+
 /-- Accept a trace: fold `step?`; `none` with the index of the first label that is not enabled. -/
 def accept : SSt → List Lab → Nat → Except (Nat × Lab) SSt
   | s, [], _ => .ok s
